@@ -1,5 +1,5 @@
 """C11 -- bidirectional sync converges and never silently loses a version."""
-import os, json
+import os, json, shutil
 import vlib, bisync_common as bc
 from common import proof_phase, TRUSTED_COMMON
 
@@ -230,6 +230,51 @@ def binary_worlds(sc, r, tier):
     return viol, n
 
 
+def error_run_worlds(sc, r, tier):
+    """(seed C12-4) histories in which EVERY run reports an error on an unrelated path (a directory on one side whose name is a regular
+    file on the other: the copy of what is below it fails each time).  The healthy paths of the pair must be merged as ever: a file
+    created, synchronised and then deleted on one side is not resurrected; an edit on one side is propagated, not reverted."""
+    import world
+    viol, n = [], 0
+
+    def put(path, data, mt=None):
+        os.makedirs(os.path.dirname(path), exist_ok=True)
+        with open(path, "wb") as fh:
+            fh.write(data)
+        if mt is not None:
+            os.utime(path, ns=(mt * 10**9, mt * 10**9))
+    strats = bc.STRATS if tier != "quick" else r.sample(bc.STRATS, 3)
+    for k, strat in enumerate(strats):
+        base = os.path.join(sc.dir, "bw-err-%d" % k); A, B = base + "/A", base + "/B"
+        side, other = (A, B) if k % 2 == 0 else (B, A)
+        put(side + "/blocked/inner.txt", b"cannot be copied", 1000); put(other + "/blocked", b"a regular file in the way", 1000)
+        put(A + "/base", b"common", 1000); put(B + "/base", b"common", 1000)
+        put(side + "/h1", b"created on one side", 2000)
+        put(A + "/h2", b"h2 v0", 2000); put(B + "/h2", b"h2 v0", 2000)
+        args = ["--bidirectional", A, B, "-q", "--conflict-resolve", strat, "--max-delete", "0"]
+        r1 = world.run_sy(args, sc)
+        ok1 = os.path.isfile(other + "/h1")
+        os.remove(side + "/h1")                                  # deleted on the side that created it
+        put(side + "/h2", b"h2 edited on one side, longer", 3000)
+        r2 = world.run_sy(args, sc)
+        put(other + "/h2", b"h2 then edited on the OTHER side, longer still", 4000)
+        r3 = world.run_sy(args, sc)
+        n += 1
+        why = []
+        if not ok1:
+            why.append("run 1 did not copy h1 across (exit %s)" % r1["rc"])
+        if os.path.exists(A + "/h1") or os.path.exists(B + "/h1"):
+            why.append("h1 was deleted on the side that had created it, after a sync: it is back / still there (A=%s B=%s)" % (os.path.exists(A + "/h1"), os.path.exists(B + "/h1")))
+        want = b"h2 then edited on the OTHER side, longer still"
+        got = [open(x + "/h2", "rb").read() if os.path.isfile(x + "/h2") else None for x in (A, B)]
+        if got != [want, want]:
+            why.append("h2 was edited on one side, synchronised, then edited on the other side only: the one-sided edit was not propagated (A=%r B=%r)" % tuple(g[:24] if g else g for g in got))
+        if why:
+            viol.append({"world": "every run reports an error on an unrelated path", "strategy": strat, "exit": [r1["rc"], r2["rc"], r3["rc"]], "why": "; ".join(why)})
+        shutil.rmtree(base, ignore_errors=True)
+    return viol, n
+
+
 def run_generic(pid, oracle, tier, seed, exhaustive_depth=None):
     res = vlib.Result(pid, tier, seed)
     pr = proof_phase(res, pid)
@@ -266,6 +311,8 @@ def run_generic(pid, oracle, tier, seed, exhaustive_depth=None):
                 hi.append(a)
                 hm.append(hm[i])
         bw_viol, bw_n = binary_worlds(sc, vlib.rng_for(seed, pid + "-bw"), tier) if pid == "C11" else ([], 0)
+        ev_, en_ = error_run_worlds(sc, vlib.rng_for(seed, pid + "-err"), tier)
+        bw_viol += ev_; bw_n += en_
     hdiff, viol, kf_hits = [], [], {}
     viol += bw_viol
     nontrivial = set()
